@@ -6,8 +6,9 @@
 (*          pms, pnode, pstep,      ms); IDParseEx(id) (time.Time as       *)
 (*          xms, xnode, xstep}      absolute ms)                           *)
 (*   pair  {a, b, fa, fb}           two ids and their IDFields triples     *)
-(*   date  {id, cn, back, err}      CnStyle(id) as character codes,        *)
-(*                                  FromChStyle(CnStyle(id)), error flag   *)
+(*   date  {id, cn, back, err,      CnStyle(id) as character codes,        *)
+(*          back2, err2}            FromChStyle(CnStyle(id)) and error     *)
+(*                                  flag, twice on the same string         *)
 (*   range {fn, bsec, esec, min, max}                                      *)
 (*         TimeBetweenID(begin, end) / TimeIDRange(t): t.Unix() of the     *)
 (*         arguments (second truncation) and the returned interval         *)
@@ -43,6 +44,7 @@ TPair(e) ==
 TDate(e) ==
   /\ IsNum(e.id) /\ ~Neg(e.id) /\ IsNum(e.back)
   /\ DateOK(e.id, e.cn, e.back, e.err)
+  /\ IsNum(e.back2) /\ DateOK(e.id, e.cn, e.back2, e.err2)     \* the same string decoded again
   /\ UNCHANGED <<cfg, epoch>>
 
 TRange(e) ==
